@@ -49,7 +49,7 @@ ASSUMPTIONS = [
     "scipy.linalg.kron shim supplied by the harness; single-threaded BLAS; exact float comparison",
 ]
 
-FAULT_KINDS = ["batch_split", "worker_reuse", "proc_reorder", "thread_preempt", "clock_jump_fwd", "clock_jump_back", "global_rng_pollution", "crash_at_file_write", "torn_write", "stale_output_dir", "pollution_inside_run", "worker_started_elsewhere", "task_exception"]
+FAULT_KINDS = ["batch_split", "worker_reuse", "proc_reorder", "thread_preempt", "clock_jump_fwd", "clock_jump_back", "global_rng_pollution", "crash_at_file_write", "torn_write", "stale_output_dir", "pollution_inside_run", "worker_started_elsewhere", "task_exception", "disk_full"]
 
 PROBES = [
     "two_tasks_in_flight_in_threads", "switch_on_hot_line_of_mutator_function", "switch_inside_loss_or_algo_configuration_or_optimize", "switch_inside_composite_system_table_code",
